@@ -66,6 +66,10 @@ mod special;
 mod string;
 mod utils;
 
+#[cfg(recmo_uint_verif)]
+#[doc(hidden)]
+pub mod verif_hooks;
+
 pub mod support;
 
 #[doc(inline)]
